@@ -148,6 +148,74 @@ async def _aw(x):
     return await x
 
 
+class XBoom(Exception):
+    def __init__(self, i):
+        self.i = i
+
+
+def exitstack_flavours(rep, rng, tier):
+    """the same stack of pushed exits and callbacks, each given as def / async def / partial(async def) / callable object"""
+    fails = 0
+    for _ in range(60 if tier == "quick" else 1000):
+        n = rng.randrange(1, 5)
+        spec = [(rng.choice(["push", "callback"]), rng.choice(["falsy", "truthy", "raise"])) for _ in range(n)]
+        block = rng.choice([None, 7])
+        results = {}
+        for fl in CALL_FLAVOURS + ["mixed"]:
+            log = []
+
+            def mk(i, kind, beh, flv):
+                def body(*args):
+                    log.append((i, args[1].i if len(args) > 1 and isinstance(args[1], XBoom) else None))
+                    if beh == "raise":
+                        raise XBoom(100 + i)
+                    return beh == "truthy"
+
+                async def abody(*args):
+                    return body(*args)
+                if flv == "def":
+                    return body
+                if flv == "async":
+                    return abody
+                if flv == "partial":
+                    async def a2(_d, *args):
+                        return body(*args)
+                    return functools.partial(a2, None)
+
+                class O:
+                    def __call__(self, *args):
+                        return abody(*args)
+                return O()
+
+            async def go():
+                st = a.ExitStack()
+                for i, (kind, beh) in enumerate(spec):
+                    flv = fl if fl != "mixed" else CALL_FLAVOURS[(i + len(spec)) % 4]
+                    f = mk(i, kind, beh, flv)
+                    if kind == "push":
+                        st.push(f)
+                    else:
+                        st.callback(f)
+                try:
+                    async with st:
+                        if block is not None:
+                            raise XBoom(block)
+                    return ("normal",)
+                except XBoom as e:
+                    return ("raises", e.i)
+            try:
+                out = drive(go())
+            except BaseException as e:  # noqa
+                out = ("error", repr(e))
+            results[fl] = (out, [x[0] for x in log])
+        rep.count(("exitstack-flavours", tuple(spec), block), n > 1, sample={"entries": spec, "block": block})
+        vals = list(results.values())
+        if builtins.any(v != vals[0] for v in vals):
+            fails += 1
+            rep.violation("neutrality:exitstack-callbacks", {"entries": spec, "block": block, "why": "unwinding depends on the flavour of the exit callables: %r" % (results,)})
+    return fails
+
+
 def api_probes():
     """every public callable with synchronous arguments: the result must be awaitable / async iterator / async CM"""
     L = [3, 1, 2]
@@ -214,6 +282,8 @@ def run(tier, seed):
         if norm_outcome(c, out) != ("exn", ("TypeError",)):
             fails += 1
             rep.violation("neutrality:sorted", {"iterable": fl, "why": "sorted of unorderable items gave %r instead of TypeError" % (norm_outcome(c, out)[:2],)})
+    # exit callbacks / pushed exits of an ExitStack in every callable flavour: same unwinding
+    fails += exitstack_flavours(rep, rng, tier)
     # every public callable is async-shaped for synchronous arguments
     probes = api_probes()
     for nm in a.__all__:
